@@ -5,6 +5,7 @@ no compaction) and the code could differ."""
 import collections
 
 _TR = str.maketrans("ACGT", "TGCA")
+_ORD = {"A": 0, "C": 1, "T": 2, "G": 3}
 
 
 def rc(x):
@@ -50,7 +51,7 @@ def graph(rows, k):
             fulls.setdefault(f, ss)
             fulls.setdefault(rc(f), ss)
     for u in adj:
-        adj[u].sort()                 # fix F13: neighbour lists are sorted
+        adj[u].sort(key=lambda x: [_ORD[c] for c in x])      # fix F13: neighbour lists are sorted (by packed value: A<C<T<G)
     return adj, fulls
 
 
@@ -127,18 +128,34 @@ def traverse(adj, starts, ends, comp, k, maxdepth=4):
                         cnt = collections.Counter(len(v) for v in vs)
                         best = max(cnt.items(), key=lambda lc: (lc[1], -lc[0]))[0]
                         kept = [v for v in vs if len(v) == best]
-                    built[(kmer, x)] = sorted(v[0] + "".join(n[-1] for n in v[1:]) for v in kept)
+                    built[(kmer, x)] = [(spell(v), snp_positions(v, starts, ends, k - 1)) for v in kept]      # in walk order
     groups, indels = {}, {}
     kg = k - 1
-    for key, seqs in built.items():
-        if len(seqs) < 2:
+    for key, vs in built.items():
+        if len(vs) < 2:
             continue
-        if len(seqs) == 2 and len(seqs[0]) != len(seqs[1]):
-            if min(len(seqs[0]), len(seqs[1])) <= 2 * kg:
-                indels[key] = seqs
+        if len(vs) == 2 and len(vs[0][0]) != len(vs[1][0]):
+            if min(len(vs[0][0]), len(vs[1][0])) <= 2 * kg:
+                indels[key] = vs
         else:
-            groups[key] = seqs
+            groups[key] = vs
     return groups, indels
+
+
+def spell(v):
+    return v[0] + "".join(n[-1] for n in v[1:])
+
+
+def snp_positions(v, starts, ends, kg):
+    """read_graph.rs: candidate SNP positions of a path (index into the spelled sequence): the base after an entry node,
+    the base before an exit node. `len - kg` is computed on usize: for paths shorter than kg it wraps (release build)."""
+    out = []
+    for i, n in enumerate(v):
+        if n in starts and (len(v) < kg or i <= len(v) - kg):
+            out.append(i + kg)
+        elif n in ends:
+            out.append(i - 1)          # i = 0 cannot get here without the entry being an exit node too
+    return out
 
 
 def lo_stages(samples, k, maxdepth=4, with_compaction=True):
@@ -148,4 +165,122 @@ def lo_stages(samples, k, maxdepth=4, with_compaction=True):
     adj2 = {u: list(v) for u, v in adj.items()}
     comp = compact(adj2, starts, ends) if with_compaction else {}
     groups, indels = traverse(adj2, starts, ends, comp, k, maxdepth)
-    return {"entries": sorted(starts), "nodes": len(adj), "groups": groups, "indels": indels}
+    return {"entries": sorted(starts), "nodes": len(adj), "groups": {key: sorted(v[0] for v in vs) for key, vs in groups.items()},
+            "indels": {key: sorted(v[0] for v in vs) for key, vs in indels.items()}, "groups_full": groups, "indels_full": indels,
+            "fulls": fulls}
+
+
+# ---- process_indels.rs / process_variants.rs (reference-free mode) ------------------------------------------------
+
+
+def kmer_key(x):
+    return [_ORD[c] for c in x]
+
+
+def process_indels(indels, fulls, nsamp, k, max_missing):
+    kg = k - 1
+    order = sorted(indels, key=lambda key: (sum(len(v[0]) for v in indels[key]), kmer_key(key[0]), kmer_key(key[1])))
+    entries, final = set(), {}
+    for key in order:
+        if key[0] not in entries:
+            entries.update((key[0], rc(key[0]), key[1], rc(key[1])))
+            final[key] = indels[key]
+    records = []
+    for key, vs in final.items():
+        sets = [fulls.get(v[0][:kg + 1]) for v in vs]
+        sets = [x for x in sets if x is not None]
+        missing, refp, altp = 0, False, False
+        for i in range(nsamp):
+            a, b = i in sets[0], i in sets[1]
+            if (not a and not b) or (a and b):
+                missing += 1
+            elif a:
+                refp = True
+            else:
+                altp = True
+        if f32_le(missing, nsamp, max_missing) and refp and altp:
+            red = [v[0][kg:] for v in vs]
+            n = 0
+            identical = True
+            while identical:
+                n += 1
+                ends_ = set()
+                for q in red:
+                    if n > len(q):
+                        identical = False
+                    else:
+                        ends_.add(q[len(q) - n:])
+                if len(ends_) > 1:
+                    identical = False
+            n -= 1
+            last = red[0][len(red[0]) - n:][:kg]
+            mids = [(q[:len(q) - n] or "-") for q in red]
+            var = sorted(zip(mids, [len(x) for x in sets], sets, range(2)), key=lambda t: -t[1])   # stable: ties keep path order
+            (ra, _, rs, _), (aa, _, as_, _) = var[0], var[1]
+            gts = []
+            for i in range(nsamp):
+                a, b = i in rs, i in as_
+                gts.append("0/1" if a and b else "0" if a else "1" if b else ".")
+            records.append((ra, aa, vs[0][0][:kg], last, tuple(gts)))
+    return entries, sorted(records)
+
+
+def f32_le(num, den, thr):
+    import struct
+    f = lambda x: struct.unpack("f", struct.pack("f", x))[0]
+    return f(f(num) / f(den)) <= f(thr)
+
+
+def call_snps(groups, indel_entries, fulls, nsamp, k, max_missing, max_indel_kmers=2):
+    kg = k - 1
+    groups = {key: list(vs) for key, vs in groups.items()}
+    for key in groups:
+        keep = []
+        for (seq, pos) in groups[key]:
+            nb = sum(1 for i in range(len(seq) - kg) if seq[i:i + kg] in indel_entries)
+            if nb <= max_indel_kmers:
+                keep.append((seq, pos))
+        groups[key] = keep
+    keys = [key for key in groups if groups[key]]
+    keys.sort(key=lambda key: (-(len(groups[key]) / len(groups[key][0][0])), kmer_key(key[0]), kmer_key(key[1])))
+    done, cols = set(), []
+    for key in keys:
+        if key[0] in indel_entries or rc(key[1]) in indel_entries:
+            continue
+        vs = groups[key]
+        if len(vs) < 2:
+            continue
+        cand = set(p for (_, pos) in vs for p in pos)
+        real = [p for p in cand if len({seq[p] for (seq, _) in vs if 0 <= p < len(seq)}) > 1]
+        save, found = set(), {}
+        for p in real:
+            col = ["-"] * nsamp
+            tmp, new = set(), True
+            for (seq, _) in vs:
+                if p - kg < 0 or p + kg + 1 > len(seq):
+                    raise IndexError("get_range out of bounds: the code panics here")
+                fb, fa = seq[p - kg:p + 1], seq[p:p + kg + 1]
+                if fb not in done and rc(fa) not in done:
+                    for sidx in fulls[fb]:
+                        col[sidx] = fb[-1] if col[sidx] in ("-", fb[-1]) else "N"
+                    tmp.update((fb, rc(fb), fa, rc(fa)))
+                else:
+                    new = False
+            if new:
+                bases = {c for c in col if c in "ACGT"}
+                miss = sum(1 for c in col if c not in "ACGT")
+                if len(bases) >= 2 and f32_le(miss, nsamp, max_missing):
+                    save.update(tmp)
+                    found[p] = "".join(col)
+        done.update(save)
+        cols.extend(found.values())
+    return sorted(cols)
+
+
+def lo_calls(samples, k, max_missing=0.1, maxdepth=4):
+    st = lo_stages(samples, k, maxdepth)
+    n = len(samples)
+    entries, records = process_indels(st["indels_full"], st["fulls"], n, k, max_missing)
+    cols = call_snps(st["groups_full"], entries, st["fulls"], n, k, max_missing)
+    return {"snp_columns": cols, "indel_records": records, "stages": st}
+
